@@ -225,6 +225,7 @@ func (x *Exec) chanRecv(st *State, fr *Frame, ch Term, n ast.Node, k func(*State
 	// a blocking receive is released by the environment (the sender closes the input): for
 	// the progress condition it counts like a select with a cancel arm
 	s2.ghosts["obsCancel"] = tTrue
+	s2.ghosts["iterProgress"] = tTrue
 	k(s2, v, okT)
 }
 
@@ -246,6 +247,7 @@ func (x *Exec) chanSend(st *State, fr *Frame, ch Term, v Term, n ast.Node, guard
 		x.chSetInt(st, "slots", ch, tApp("Int", "-", x.chInt(st, "slots", ch), tInt(1)))
 	}
 	st.ghosts["actions"] = tApp("Int", "+", x.ghostInt(st, "actions"), tInt(1))
+	st.ghosts["iterProgress"] = tTrue
 	name, m, tr := x.chTrace(st, "sent", ch)
 	cur := tSelect(m, ch, tr)
 	es := x.d.sorts[tr].Elem
@@ -303,6 +305,9 @@ func (x *Exec) selectStmt(st *State, fr *Frame, s *ast.SelectStmt, k func(*State
 			b := cur.clone()
 			if hasCancel && a.kind != "cancel" {
 				b.ghosts["obsCancel"] = tTrue
+			}
+			if a.kind != "default" {
+				b.ghosts["iterProgress"] = tTrue
 			}
 			switch a.kind {
 			case "default":
